@@ -1081,7 +1081,7 @@ impl NonNegativeIntegerOrFloat {
 
     /// Returns `true` if the value is an integer.
     pub(crate) fn is_integer(&self) -> bool {
-        self.0.fract().abs() < f64::EPSILON
+        self.0.fract() == 0.0
     }
 }
 
@@ -1143,9 +1143,7 @@ mod serde_impls {
         where
             S: Serializer,
         {
-            if self.0.fract().abs() <= f64::EPSILON
-                && (i32::MIN as f64..=i32::MAX as f64).contains(&self.0)
-            {
+            if self.0.fract() == 0.0 && (i32::MIN as f64..=i32::MAX as f64).contains(&self.0) {
                 serializer.serialize_i32(self.0 as i32)
             } else {
                 serializer.serialize_f64(self.0)
